@@ -398,7 +398,7 @@ Proof.
       change (Unstash (core_fqn c ++ [s_registry])) with (rebase (core_fqn c) (Unstash [s_registry])).
       apply rel_ok_at. exact HK.
     + apply rel_ok_init_chain. exact HO.
-    + destruct (core_str_inside_out c); [reflexivity | apply rel_ok_init_chain; exact HK].
+    + destruct (path_eqb (core_fqn c) (out_pkg c)); [reflexivity | apply rel_ok_init_chain; exact HK].
   - (* RichInit *)
     destruct (core_pkg c); [|reflexivity]. cbn [forallb]. rewrite andb_true_r.
     change (Write (out_pkg c ++ [s_init]) 0) with (rebase (out_pkg c) (Write [s_init] 0)).
